@@ -49,6 +49,9 @@ func BuildUnsigned(r *Rng, twoGroups bool) *sif.Buffer {
 	}
 	if twoGroups {
 		dis = append(dis,
+			// the same content a second time, in each group
+			mustDI(sif.DataGeneric, "Bootstrap: docker\nFrom: busybox\n", sif.OptObjectName("copy")),
+			mustDI(sif.DataLabels, "A=1\n", sif.OptGroupID(2)),
 			mustDI(sif.DataEnvVar, "A=1\n", sif.OptGroupID(2)),
 			mustDI(sif.DataOCIBlob, string(GenContent(r, 30)), sif.OptGroupID(2), sif.OptLinkedGroupID(1)),
 			mustDI(sif.DataGeneric, "", sif.OptGroupID(2), sif.OptObjectName("empty")),
@@ -408,6 +411,24 @@ func Catalogue(r *Rng, img []byte) []Mutation {
 	}{{"hdr launch[5]", 5}, {"hdr id[0]", 48}, {"hdr arch[1]", 46}, {"hdr mtime", 72}, {"hdr datasize", 120}} {
 		hm := hm
 		mut(hm.what+" ^=1", func(b []byte) { b[hm.off] ^= 1 })
+	}
+	return ms
+}
+
+// ContentFlips: one bit of the content of every object (first and last byte), one mutation each.
+func ContentFlips(img []byte) []Mutation {
+	si, err := DecodeImage(img)
+	if err != nil {
+		return nil
+	}
+	var ms []Mutation
+	for _, d := range si.Descs {
+		if !d.Used || d.Size <= 0 || d.Off < 0 || d.Off+d.Size > int64(len(img)) {
+			continue
+		}
+		for _, o := range []int64{d.Off, d.Off + d.Size - 1} {
+			ms = append(ms, Mutation{fmt.Sprintf("content of object %d: flip bit 0 of byte %d", d.ID, o), flip(img, int(o), 0), false, ""})
+		}
 	}
 	return ms
 }
